@@ -36,6 +36,9 @@ CLAIMED["C06"] = ("exploration", "seeded histories of region-of-interest request
 CLAIMED["C05"] = ("exploration", "seeded histories of keyframe requests over generated multi-frame programs, checked against an executable reference compositor fed with separately decoded frames",
     "A small executable model (4 reference slots + the blend formulas) is compared with every keyframe the library renders, over seeded multi-frame programs and seeded request histories (order, repetition). The history dimension (slots are stateful: blend() resets evicted handles, cached blends are reused) is what the simulation adds; inputs are sampled.",
     "Frames' own samples come from the library's decode of standalone streams. Known finding F14c is reported as KNOWN-FINDING.")
+CLAIMED["C02"] = ("exploration", "simulated runs (op sequences x faults x configuration knobs) executed under two detectors: an AddressSanitizer build on the real SIMD paths, and Miri's seeded preemptive scheduler with data-race detection on tiny programs",
+    "The simulator supplies the executions (C01's scenarios plus tiny valid programs for Miri), a detector is the oracle: any AddressSanitizer report or Miri error (out-of-bounds, use-after-free, uninitialised read, data race) is a violation attributed to the seed in flight and confirmed in a fresh process. Assurance: no report on the runs explored, nothing more.",
+    "Miri without the experimental aliasing model; Miri sees only the generic code paths; ASan does not see uninitialised reads; aarch64/wasm kernels not covered.")
 NOT_APPLICABLE = {}
 
 def main():
